@@ -1513,26 +1513,50 @@ def root_pow(s, k):
 
 
 def trig(s):
-    """(cos s, sin s) as a generator pair with c**2 + s**2 == 1 (s must be a plain angle symbol or constant)"""
+    """(cos s, sin s).  s must be an integer linear combination of plain angle symbols (user generators): every angle
+    symbol t gets a generator pair (c_t, s_t) with c_t**2 + s_t**2 == 1, sums are expanded by the addition formulas."""
     R = cur()
+    s = Sym.const(s) if not isinstance(s, Sym) else s
     if s.is_const():
         r, i = s.const_value()
         if i == 0 and r == 0:
             return Sym.const(1), Sym.const(0)
-    key = ("trig", s.n, s.d)
-    if key in R.memo:
+        if i == 0:
+            return Sym.const(math.cos(float(r))), Sym.const(math.sin(float(r)))
+    if not (s.d.is_ground and s.d.LC == 1):
+        raise EngineGap("trigonometric function of a non-linear angle expression")
+    nuser = 1 + len(R.user_names)
+    terms = []
+    for m, c in s.n.items():
+        if sum(m) != 1 or m[0]:
+            raise EngineGap("trigonometric function of a non-linear angle expression")
+        k = m.index(1)
+        if k >= nuser:
+            raise EngineGap("trigonometric function of a derived quantity")
+        terms.append((k, int(c)))
+    terms.sort()
+
+    def atom(k):
+        key = ("trig", k)
+        if key not in R.memo:
+            c = R.fresh("cos", arg=R.names[k])
+            kc = max(R.meta)
+            sn = R.fresh("sin", arg=R.names[k], cos=kc)
+            R.memo[key] = (c, sn)
         return R.memo[key]
-    # negated angle shares generators
-    nkey = ("trig", (-s).n, s.d)
-    if nkey in R.memo:
-        c, sn = R.memo[nkey]
-        return c, -sn
-    c = R.fresh("cos", arg=s)
-    sn = R.fresh("sin", arg=s, cos=None)
-    ci = [k for k, m in R.meta.items() if m is R.meta[max(R.meta)]]
-    # store the cos generator index in the sin meta
-    ks = max(R.meta)
-    kc = ks - 1
-    R.meta[ks]["cos"] = kc
-    R.memo[key] = (c, sn)
-    return c, sn
+
+    def mult(k, n):
+        c, sn = atom(k)
+        if n < 0:
+            cc, ss = mult(k, -n)
+            return cc, -ss
+        cc, ss = Sym.const(1), Sym.const(0)
+        for _ in range(n):
+            cc, ss = cc * c - ss * sn, ss * c + cc * sn
+        return cc, ss
+
+    cc, ss = Sym.const(1), Sym.const(0)
+    for k, n in terms:
+        c2, s2 = mult(k, n)
+        cc, ss = cc * c2 - ss * s2, ss * c2 + cc * s2
+    return cc, ss
